@@ -327,7 +327,11 @@ partial def chainLoop (stdin : IO.FS.Stream) (s : State) (seen : List Str) (name
     | some op =>
       let r := step sha s op
       IO.println ("< " ++ resultLine op s.h r)
-      let seen' := updateSeen seen r.st
+      -- a record filled and paid within one end-block never shows its recipients in a dump: the tally's events name them
+      let seenF := r.filled.foldl (fun a ev => match ev with
+        | .filled _ _ o _ => if (match holderOfHex o with | .acct _ => true | _ => false) || a.contains o then a else a ++ [o]
+        | _ => a) seen
+      let seen' := updateSeen seenF r.st
       let named' := noteNamed named l
       for d in dumpChain r.st seen' ++ dumpQueries r.st named' do
         IO.println ("| " ++ d)
